@@ -450,8 +450,8 @@ func (pe *pathEnum) eventsOfInstr(in ssa.Instruction) []pathItem {
 					}
 				}
 			}
-			if ta, ok := val.(*ssa.TypeAssert); ok {
-				if ex, ok := ta.X.(*ssa.Extract); ok {
+			if ta, ok := cv(val).(*ssa.TypeAssert); ok {
+				if ex, ok := cv(ta.X).(*ssa.Extract); ok {
 					if c, ok := ex.Tuple.(*ssa.Call); ok && callOf(c).dynamic && P.roleOf(c.Call.Value) == "coercer" {
 						src = "coerced"
 					}
